@@ -256,6 +256,23 @@ class Air:
             return self.fate_fn(pkt)
         return "D"
 
+    def phantom_tx(self, addr, ch, aw, rate=0, crc=2, data=b"probe", pid=3, noack=True):
+        """a packet from a transmitter that is not a simulated chip; returns [(chip name, pipe, how)]"""
+        t = self.s.now
+        pkt = dict(addr=bytes(addr), ch=ch, pid=pid, noack=noack, data=bytes(data), src="phantom", rate=rate, crc=crc, aw=aw)
+        rxs = []
+        for c in self.chips:
+            if not c.can_hear(t - 1):
+                continue
+            if c.r[5] != ch or c.aw() != aw or c.rate() != rate or c.crc_len() != crc:
+                continue
+            for p in range(6):
+                if c.r[2] & (1 << p) and c.pipe_addr(p) == pkt["addr"]:
+                    a, how = c.receive(t, p, pkt)
+                    rxs.append((c.name, p, how))
+                    break
+        return rxs
+
     def occupy(self, t0, t1, ch, who):
         self.active = [a for a in self.active if a[1] > t0 - 10_000_000]
         self.active.append((t0, t1, ch, who))
@@ -300,6 +317,7 @@ class Chip:
         self.cycle = 0
         self.rpd = 0
         self.cw_events = []
+        self.cfg_writes = []  # [old PWR_UP|PRIM_RX, new, CE] at every CONFIG write (C08.CE)
 
     # ---- derived state
     def aw(self):
@@ -407,6 +425,8 @@ class Chip:
                 if reg in (0x1C, 0x1D) and not self.feat_unlocked:
                     pass
                 else:
+                    if reg == 0:
+                        self.cfg_writes.append([self.r[0] & 3, v & 3, int(self.ce)])
                     self.r[reg] = v & WMASK[reg]
                 if reg == 5:
                     self.plos = 0
